@@ -74,7 +74,7 @@ class Face(ElementBase):
     def add_edge(self, corner: int, edge_data: Union[EdgeData, None]) -> None:
         """Replaces an existing edge between corner and (corner+1);
         use None to delete an edge (replace with a straight line)"""
-        if corner > 3:
+        if not 0 <= corner <= 3:
             raise FaceCreationError("Provide a corner index between 0 and 3", f"Given corner index: {corner}")
 
         if edge_data is None:
@@ -94,6 +94,9 @@ class Face(ElementBase):
 
     def project_edge(self, corner: int, label: ProjectToType) -> None:
         """Adds a Project edge or add the label to an existing one"""
+        if not 0 <= corner <= 3:
+            raise FaceCreationError("Provide a corner index between 0 and 3", f"Given corner index: {corner}")
+
         edge = self.edges[corner]
 
         if isinstance(edge, Project):
